@@ -116,6 +116,19 @@ class SessionSem(Semantics):
     def enum_switch(self, interp, path, body, bb, term, enum):
         env = path.env
         if enum == SS:
+            # a state value held in a local (moved out of the cell, or about to be stored) rather than the cell itself
+            src = term.get('src')
+            if src is not None:
+                pp = [e for e in src.get('p', []) if e != '*']
+                t = None
+                if not pp:
+                    t = path.tags.get((body.id, src['l']))
+                elif pp in (['d:Some', 'f:0'], ['d:Ok', 'f:0']):
+                    t = path.tags.get((body.id, src['l']))
+                    if not (t and t.startswith('ss:')):
+                        t = path.tags.get((body.id, src['l'], 'in'))
+                if t and t.startswith('ss:') and t != 'ss:NotLoaded':
+                    return [t[3:].replace('+fresh', '')]
             return [env['S']] if env['S'] != 'NotLoaded' else []
         if enum == CID:
             return [env['K']]
@@ -130,6 +143,8 @@ class SessionSem(Semantics):
             tag = interp.tag_of(path, body, src) if src and not src.get('p') else None
             if tag in ('opt:Some', 'opt:None'):
                 return [tag[4:]]
+            if tag and tag.startswith('ss:'):
+                return ['None'] if tag == 'ss:NotLoaded' else ['Some']
             ty = self.switched_type(body, bb, term)
             if '&str' in ty or 'SameSite' in ty:
                 # cookie attributes taken from the configuration: no effect on the model, one edge is enough
@@ -181,6 +196,8 @@ class SessionSem(Semantics):
                         self._pending = (k, 'some:' + inner)
                     else:
                         self._pending = (k, inner if inner and inner.startswith('ss:') else 'opt:' + rv['var'])
+                elif adt == 'pavex_session::store_::SessionRecordRef':
+                    self._pending = (k, 'rec:state')
                 elif adt == RES and lhs['l'] == 0:
                     env['reterr'] = rv['var'] == 'Err'
                     if rv['var'] == 'Ok' and rv['ops']:
@@ -193,6 +210,20 @@ class SessionSem(Semantics):
                     env['cu'] = True
                 if adt == RES and lhs['l'] == 0:
                     env['reterr'] = rv['var'] == 'Err'
+        # in-place transition through a `&mut ServerState` (e.g. `*state = ServerState::Changed { .. }`)
+        if lhs.get('p') and all(e == '*' for e in lhs['p']) and strip_generics(st.get('lty') or '') == SS:
+            if rv['k'] == 'agg' and rv.get('ak') == 'adt' and strip_generics(rv['adt']) == SS:
+                fresh = False
+                if 'state' in rv.get('fields', []):
+                    pl = op_place(rv['ops'][rv['fields'].index('state')])
+                    fresh = pl is not None and path.tags.get((body.id, pl['l'])) == 'fresh'
+                self.write_state(env, rv['var'] + ('+fresh' if fresh else ''))
+            elif rv['k'] == 'use' and op_place(rv['op']) is not None and not op_place(rv['op']).get('p'):
+                t = path.tags.get((body.id, op_place(rv['op'])['l']))
+                if t and t.startswith('ss:'):
+                    self.write_state(env, t[3:])
+                else:
+                    self.unknown.append('write through &mut ServerState with unknown variant at %s' % body.loc(bb, st))
         # stores into the session's fields
         lty = st.get('lty') or ''
         if lhs.get('p') and lhs['p'][-1] in ('f:server_state', 'f:id') and rv['k'] == 'use':
@@ -314,6 +345,14 @@ class SessionSem(Semantics):
             self.n_store_calls += 1
             clear_dest()
             roles = self.id_roles(body, bb, term)
+            # what the path knows about each id argument takes precedence (ids handed to a helper arrive as parameters)
+            dyn = []
+            for i, ty in enumerate(term['aty'][1:], start=1):
+                if 'SessionId' not in ty:
+                    continue
+                t = arg_tag(i)
+                dyn.append({'f:old': 'old', 'val:old_id': 'old', 'f:new': 'new', 'val:new_id': 'new', 'f:cur': 'cur'}.get(t))
+            roles = [({d_} if d_ else got) for d_, got in zip(dyn, roles)] if len(dyn) == len(roles) else roles
             rl = []
             for got in roles:
                 if len(got) != 1:
@@ -324,6 +363,7 @@ class SessionSem(Semantics):
             keys = [self.rec_key(env, r) for r in rl]
             cell = '%s*%s' % (env['S'], env['K'])
             out = 'Ok'
+            pre = dict(env)
             if meth == 'load':
                 v = env[keys[0]]
                 succ = []
@@ -335,6 +375,15 @@ class SessionSem(Semantics):
                     p.trail.append(('store', 'load', rl, p.env['loaded'], cell))
                     succ.append(('next', p))
                 return succ
+            if meth in ('create', 'update'):
+                rk = None
+                for i, ty in enumerate(term['aty']):
+                    if 'SessionRecordRef' in ty:
+                        rk = arg_tag(i)
+                if rk not in ('rec:empty', 'rec:state'):
+                    self.unknown.append('record argument of store.%s at %s has unknown provenance' % (meth, body.loc(bb, term)))
+                elif rk == 'rec:empty' and env['S'] in ('Changed', 'Unchanged') and env['ne']:
+                    env['wrong_record'] = 'store.%s at %s writes the EMPTY record while the session holds a (possibly non-empty) %s state' % (meth, body.loc(bb, term), env['S'])
             if meth == 'create':
                 if env[keys[0]] == 'Y':
                     out = ('Err', 'DuplicateId')
@@ -363,14 +412,32 @@ class SessionSem(Semantics):
                     env[keys[0]], env[keys[1]] = 'N', 'Y'
             else:
                 self.unknown.append('unmodelled store method %s' % meth)
+            succ = []
+            # the one thing the environment can do on its own: the record expires between two calls. The code provides for it (it tolerates
+            # UnknownId in several places); explore that outcome once per path. A failure that is merely propagated on such a path is the
+            # documented behaviour, what the tolerant branches do afterwards is checked like everything else.
+            if out == 'Ok' and meth in ('update', 'update_ttl', 'delete', 'change_id') and not pre.get('raced'):
+                p2 = path.fork()
+                p2.env.update(pre)
+                p2.env['raced'] = True
+                p2.env[keys[0]] = 'N'
+                p2.env['last'] = ('Err', 'UnknownId')
+                p2.trail.append(('store', meth, rl, ('Err', 'UnknownId'), cell, body.loc(bb, term)))
+                succ.append(('next', p2))
             env['last'] = out
             path.trail.append(('store', meth, rl, out, cell, body.loc(bb, term)))
-            return [('next', path)]
+            succ.append(('next', path))
+            return succ
         # --- propagation of results -----------------------------------------------------------------------------
         if short.endswith('FromResidual::from_residual') or short.endswith('::from_residual'):
             if d is not None and d['l'] == 0 and not d.get('p'):
                 env['reterr'] = True
             return None
+        if short == 'pavex_session::store_::SessionRecordRef::empty':
+            clear_dest()
+            if dk is not None:
+                path.tags[dk] = 'rec:empty'
+            return [('next', path)]
         if short == M + 'new_cell_with':
             t = arg_tag(0)
             clear_dest()
@@ -386,9 +453,12 @@ class SessionSem(Semantics):
             if m == 'set':
                 t = arg_tag(1)
                 if t and t.startswith('ss:'):
-                    if env['S'] == 'NotLoaded':
+                    was_empty = env['S'] == 'NotLoaded'
+                    if was_empty:
                         self.write_state(env, t[3:])
                     env['last'] = 'Ok'
+                    if dk is not None:
+                        path.tags[dk] = 'res:Ok' if was_empty else 'res:Err'
                 else:
                     self.unknown.append('OnceCell::set with unknown state at %s' % body.loc(bb, term))
             elif m == 'take':
@@ -426,12 +496,20 @@ class SessionSem(Semantics):
                         self.unknown.append('post-state closure returns an unknown variant at %s' % cbody.loc())
                 succ.append(('next', p))
             return succ
+        if short in ('core::result::Result::is_ok', 'core::result::Result::is_err'):
+            t = arg_tag(0)
+            clear_dest()
+            if t in ('res:Ok', 'res:Err') and dk is not None:
+                path.memo[dk] = (t == 'res:Ok') == short.endswith('is_ok')
+            return [('next', path)]
         if short in ('core::option::Option::is_some', 'core::option::Option::is_none'):
             t = arg_tag(0)
             clear_dest()
             val = None
             if t in ('opt:Some', 'opt:None'):
                 val = (t == 'opt:Some')
+            elif t and t.startswith('ss:'):
+                val = t != 'ss:NotLoaded'
             elif term['aty'] and 'ServerState' in term['aty'][0]:
                 val = env['S'] != 'NotLoaded'
             if val is not None and dk is not None:
@@ -484,11 +562,26 @@ class SessionSem(Semantics):
         if short.startswith(M) and self.depth < 6:
             cb = self.exec_body(short)
             if cb is not None:
+                arg_tags = [arg_tag(i) for i in range(len(term['args']))]
+                arg_bools = []
+                for i in range(len(term['args'])):
+                    l_ = arg_local(i)
+                    arg_bools.append(interp.bool_value(path, body, l_)[0] if l_ is not None and body.locals[l_] == 'bool' else None)
                 clear_dest()
                 self.depth += 1
                 try:
                     sub = path.fork()
                     sub.env['reterr'] = False
+                    # an `async fn` is entered through its coroutine: its parameters are the fields of the coroutine's environment,
+                    # which the body first moves into locals `_k = move (_1.<i>)`; plain functions take them as _1.._n
+                    for i, t_ in enumerate(arg_tags):
+                        if t_ is not None:
+                            sub.tags[(cb.id, 1 + i)] = t_
+                            sub.tags[(cb.id, 1, i)] = t_
+                    for i, v_ in enumerate(arg_bools):
+                        if v_ is not None:
+                            sub.memo[(cb.id, 1 + i)] = v_
+                            sub.memo[(cb.id, 1, i)] = v_
                     outs = interp.run(cb, None, path=sub)
                 finally:
                     self.depth -= 1
@@ -505,7 +598,10 @@ class SessionSem(Semantics):
                     if dk is not None:
                         t = p.tags.get((cb.id, 0))
                         if short.endswith('::old_id') or short.endswith('::new_id'):
-                            t = t if t in ('opt:Some', 'opt:None') else 'val:' + short.split('::')[-1]
+                            if t in ('opt:Some', 'opt:None'):
+                                p.tags[dk + ('in',)] = 'val:' + short.split('::')[-1]
+                            else:
+                                t = 'val:' + short.split('::')[-1]
                         if t:
                             p.tags[dk] = t
                         r = interp.root(p, cb, 0)
@@ -543,25 +639,83 @@ class TaggingInterp(Interp):
 
     def _stmt(self, path, body, bb, st, upvars):
         self.sem._pending = None
+        lhs0 = st.get('lhs')
+        if lhs0 is not None and not lhs0.get('p'):
+            k0 = (body.id, lhs0['l'])
+            for d_ in (path.tags, path.memo):
+                for kk in [kk for kk in d_ if isinstance(kk, tuple) and len(kk) > 2 and kk[:2] == k0]:
+                    del d_[kk]
         super()._stmt(path, body, bb, st, upvars)
         if self.sem._pending is not None:
             k, tag = self.sem._pending
             path.tags[k] = tag
             self.sem._pending = None
-        # field reads that denote ids: _x = (self.id as ToBeRenamed).old
         lhs = st.get('lhs')
         rv = st['rv']
-        if lhs is not None and not lhs.get('p') and rv['k'] == 'use':
-            pl = op_place(rv['op'])
+        if lhs is None or lhs.get('p'):
+            return
+        k = (body.id, lhs['l'])
+        if rv['k'] in ('use', 'ref', 'cfd'):
+            pl = op_place(rv['op']) if rv['k'] == 'use' else rv['pl']
             if pl is not None and pl.get('p'):
-                pp = pl['p']
+                pp = [e for e in pl['p'] if e != '*']
+                # field reads that denote ids: _x = (self.id as ToBeRenamed).old / (.. as Existing).0
                 for i, el in enumerate(pp):
                     if el == 'd:ToBeRenamed' and i + 1 < len(pp) and pp[i + 1] in ('f:old', 'f:new'):
-                        path.tags[(body.id, lhs['l'])] = pp[i + 1]
+                        path.tags[k] = pp[i + 1]
+                    elif el in ('d:Existing', 'd:NewlyGenerated') and i + 1 < len(pp) and pp[i + 1] == 'f:0':
+                        path.tags[k] = 'f:cur'
+                # the payload of a tagged Option / Result, an element of a tagged tuple
+                base = (body.id, pl['l'])
+                if pp in (['d:Some', 'f:0'], ['d:Ok', 'f:0'], ['d:Err', 'f:0']):
+                    t = path.tags.get(base + ('in',))
+                    if t is not None:
+                        path.tags[k] = t
+                    for kk, vv in list(path.tags.items()):      # a tuple payload keeps its element tags
+                        if len(kk) == 4 and kk[:3] == base + ('in',):
+                            path.tags[k + (kk[3],)] = vv
+                    for kk, vv in list(path.memo.items()):
+                        if isinstance(kk, tuple) and len(kk) == 4 and kk[:3] == base + ('in',):
+                            path.memo[k + (kk[3],)] = vv
+                elif len(pp) == 1 and pp[0].startswith('f:') and pp[0][2:].isdigit():
+                    i = int(pp[0][2:])
+                    if base + (i,) in path.tags:
+                        path.tags[k] = path.tags[base + (i,)]
+                    if base + (i,) in path.memo:
+                        path.memo[k] = path.memo[base + (i,)]
+        elif rv['k'] == 'agg' and rv.get('ak') == 'tuple':
+            for i, o in enumerate(rv['ops']):
+                path.tags.pop(k + (i,), None)
+                path.memo.pop(k + (i,), None)
+                pl = op_place(o)
+                if pl is not None and not pl.get('p'):
+                    t = path.tags.get((body.id, pl['l']))
+                    if t is not None:
+                        path.tags[k + (i,)] = t
+                    if body.locals[pl['l']] == 'bool':
+                        v, _, _ = self.bool_value(path, body, pl['l'])
+                        if v is not None:
+                            path.memo[k + (i,)] = v
+                elif isinstance(o, dict) and 'int' in o and o.get('ty') == 'bool':
+                    path.memo[k + (i,)] = o['int'] != '0'
+        elif rv['k'] == 'agg' and rv.get('ak') == 'adt' and strip_generics(rv['adt']) in (OPT, RES) and rv['ops']:
+            # remember what is inside Some(..) / Ok(..)
+            pl = op_place(rv['ops'][0])
+            path.tags.pop(k + ('in',), None)
+            if pl is not None and not pl.get('p'):
+                src = (body.id, pl['l'])
+                if src in path.tags:
+                    path.tags[k + ('in',)] = path.tags[src]
+                for kk, vv in list(path.tags.items()):
+                    if len(kk) == 3 and kk[:2] == src and isinstance(kk[2], int):
+                        path.tags[k + ('in', kk[2])] = vv
+                for kk, vv in list(path.memo.items()):
+                    if isinstance(kk, tuple) and len(kk) == 3 and kk[:2] == src and isinstance(kk[2], int):
+                        path.memo[k + ('in', kk[2])] = vv
 
 
 INIT_ENV = dict(K=None, S=None, inv=False, cu=False, ne=False, rc='N', ro='N', allow=False, neverskip=True,
-                last='Ok', reterr=False, orphan=None, touched=False, loaded='None', client_op=False, had=False, ret=None)
+                last='Ok', reterr=False, orphan=None, touched=False, loaded='None', client_op=False, had=False, ret=None, wrong_record=None, raced=False)
 STATE_KEYS = ('K', 'S', 'inv', 'cu', 'ne', 'rc', 'ro', 'allow', 'neverskip', 'had')
 
 
@@ -587,6 +741,7 @@ def explore(ctx, ops, terminal):
             seen[s] = (None, why)
             work.append(e)
     violations = {}
+    observed_cells = set()
     n_runs = 0
 
     def history(s):
@@ -608,7 +763,7 @@ def explore(ctx, ops, terminal):
     def run_op(e0, opname, body):
         nonlocal n_runs
         n_runs += 1
-        env = dict(e0, last='Ok', reterr=False, orphan=None, touched=False, loaded='None', client_op=opname.startswith('client.'), ret=None)
+        env = dict(e0, last='Ok', reterr=False, orphan=None, touched=False, loaded='None', client_op=opname.startswith('client.'), ret=None, wrong_record=None, raced=False)
         return interp.run(body, env)
 
     while work:
@@ -621,6 +776,8 @@ def explore(ctx, ops, terminal):
                 env = p.env
                 cell = '%s*%s' % (e0['S'], e0['K'])
                 stores = [t for t in p.trail if t[0] == 'store' and t[1] != 'load']
+                for t in stores:
+                    observed_cells.add((t[1], t[4].split('*')[0], t[4].split('*')[1]))
                 if oc[0] == 'panic':
                     if any(x in (oc[2] or '') for x in BY_DESIGN_PANICS):
                         continue
@@ -630,7 +787,7 @@ def explore(ctx, ops, terminal):
                     continue
                 if env.get('reterr'):
                     bad = [t for t in stores if t[3] != 'Ok']
-                    if bad:
+                    if bad and not env.get('raced'):
                         t = bad[-1]
                         report('sync-fails', '%s|%s|%s' % (t[1], t[4], t[3][1]), e0, opname,
                                'store.%s(%s) at %s fails with %s in cell (state=%s, id=%s): the session itself left the store in that condition earlier '
@@ -638,6 +795,8 @@ def explore(ctx, ops, terminal):
                     continue
                 if env.get('orphan'):
                     report('orphan-record', cell, e0, opname, env['orphan'])
+                if env.get('wrong_record'):
+                    report('state-lost', 'empty-record|' + cell, e0, opname, env['wrong_record'])
                 if is_terminal:
                     if env['inv'] and (env['rc'] == 'Y' or (env['K'] == 'ToBeRenamed' and env['ro'] == 'Y')):
                         report('record-survives-invalidate', cell, e0, opname,
@@ -663,7 +822,7 @@ def explore(ctx, ops, terminal):
                 if s1 not in seen:
                     seen[s1] = (s0, opname)
                     work.append(dict(INIT_ENV, **{k: env[k] for k in STATE_KEYS}))
-    return dict(violations=violations, n_states=len(seen), n_runs=n_runs, n_paths=interp.n_paths, n_store_calls=sem.n_store_calls,
+    return dict(violations=violations, observed_cells=observed_cells, n_states=len(seen), n_runs=n_runs, n_paths=interp.n_paths, n_store_calls=sem.n_store_calls,
                 unknown=sorted(set(sem.unknown)))
 
 
@@ -689,6 +848,7 @@ def r5_typestate(ctx):
     if sync is None or fin is None or len(ops) != len(names) + len(client):
         return
     res = explore(ctx, ops, ('finalize', fin))
+    ctx.c11_model = res
     ctx.count('typestate_states', res['n_states'])
     ctx.count('typestate_operation_runs', res['n_runs'])
     ctx.count('typestate_paths', res['n_paths'])
